@@ -19,6 +19,9 @@ func (s SSTableMergeIteratorContext) Next() ([]byte, []byte, error) {
 	if errors.Is(err, Done) {
 		return nil, nil, pq.Done
 	}
+	if err != nil {
+		return nil, nil, err
+	}
 	return k, v, nil
 }
 
